@@ -37,6 +37,18 @@ CHECKS["C06"] = dict(
          "property statement; bit names are taken from the class under test (their order is checked, their wording is not).",
     design="4/C06")
 
+CHECKS["C01"] = dict(
+    technique="exhaustive enumeration of the frame space (round-trip oracle) plus purity differential against a "
+              "pristine interpreter; Hypothesis decode/construct histories",
+    text="Thorough: all 2^16 x 256 (16-bit frame, device type) pairs, all 2^24 24-bit frames, all 2^21 device/instance "
+         "event frames under 8 classes of instance map, and lengths 1..64 are decoded (51M decodes) and each result must "
+         "be a Command with bit-identical frame that renders as text. Purity: a fixed probe set of 7.5k inputs is "
+         "fingerprinted in a fresh interpreter and must be reproduced at the end of every shard; registries named in the "
+         "anchors must be unchanged; generated histories re-decode earlier inputs. Quick: stride 13 over the same strata.",
+    note="Trusted: nothing beyond Python itself for the round trip; purity compares the library with itself across "
+         "histories (a differential, not a reference model).",
+    design="4/C01")
+
 NOT_BUILT_REASON = "check not built yet in this round (planned, see DESIGN.md section 4); not claimed until it is registered"
 
 
